@@ -28,6 +28,12 @@ def _run(ctx, label, fn, data, exp, **kw):
     ctx.check("%s: a well-formed response is decoded without error" % label, ctx.oracle(st == "ok"), repr(r))
     if st == "ok":
         covers(ctx, label, r, exp)
+        # decoding is a function of the buffer: the same response decoded again gives the same result
+        st2, r2 = ctx.attempt(fn, _buf(ctx, data), **kw)
+        if st2 == "ok":
+            covers(ctx, label + " (decoded a second time)", r2, exp)
+        else:
+            ctx.check("%s: decodes a second time" % label, False, repr(r2))
     return st, r
 
 
@@ -169,7 +175,7 @@ def obligations(tier):
             add("prin-readkeys/n=%d/trail=%d" % (n, t), "h_simple", fmt="prin-readkeys", arg=n, trailing=t)
             add("reportpriority/n=%d/trail=%d" % (n, t), "h_simple", fmt="reportpriority", arg=n, trailing=t)
         for ext in (False, True):
-            for ports in ([], [0], [1], [2, 1]) + (() if q else ([1, 0, 3], [4])):
+            for ports in ([], [0], [1], [2, 1], [0, 2]) + (() if q else ([1, 0, 3], [4])):
                 add("rtpg/ext=%s/ports=%s/trail=%d" % (ext, ports, t), "h_simple", fmt="rtpg", arg=[ext, list(ports)], trailing=t)
         for held in (False, True):
             add("prin-readreservation/held=%s/trail=%d" % (held, t), "h_simple", fmt="prin-readreservation", arg=held, trailing=t)
@@ -183,7 +189,7 @@ def obligations(tier):
         add("prin-readfullstatus/iscsi-name-len=%d" % nl, "h_simple", fmt="prin-readfullstatus", arg=[["iscsi-name"], nl])
         add("prin-readfullstatus/iscsi-isid-name-len=%d" % nl, "h_simple", fmt="prin-readfullstatus",
             arg=[["iscsi-name-isid"], nl])
-    res = [[], [[2, 0, 0, 0]], [[2, 0, 0, 1]], [[1, 0, 0, 2]], [[3, 1, 0, 1]], [[4, 1, 1, 2]], [[2, 0, 0, 1], [4, 0, 1, 1]],
+    res = [[], [[2, 0, 0, 0]], [[2, 0, 0, 1]], [[1, 0, 0, 2]], [[3, 1, 0, 1]], [[2, 0, 1, 2]], [[4, 1, 1, 2]], [[2, 0, 0, 1], [4, 0, 1, 1]],
            [[1, 0, 0, 1], [2, 0, 0, 2], [3, 0, 0, 1], [4, 0, 0, 1]]]
     if not q:
         res += [[[2, 1, 1, 4]], [[3, 0, 1, 3], [1, 1, 0, 0], [4, 0, 0, 4]]]
